@@ -643,7 +643,6 @@ func (w *World) successValueOf(v ssa.Value) string {
 	return substParams(term, h, args)
 }
 
-
 // forwardingBody: f is a module-local function whose single block only loads, selects fields, converts and makes
 // static calls, and returns one value — a pure accessor or a thin forwarding wrapper. Returns the return instruction.
 func (w *World) forwardingBody(f *ssa.Function) *ssa.Return {
